@@ -55,7 +55,10 @@ func famqSystem(c *Ctx) {
 	for i := 0; i < c.pick(16, 300); i++ {
 		add("starve")
 	}
-	for i := 0; i < c.pick(140, 4000); i++ {
+	for i := 0; i < c.pick(12, 200); i++ {
+		add("lifecycle")
+	}
+	for i := 0; i < c.pick(130, 4000); i++ {
 		add("random")
 	}
 }
